@@ -176,6 +176,49 @@ func verifWALEnd(dir string) (wal.Offset, error) {
 	return nil, nil
 }
 
+// VerifWALEntries returns the complete entries of the stream's WAL, oldest first.
+func (db *DB) VerifWALEntries(stream string) ([][]byte, error) {
+	dir := filepath.Join(db.opts.Dir, "_wal", stream)
+	files, err := ioutil.ReadDir(dir)
+	if err != nil {
+		return nil, err
+	}
+	var out [][]byte
+	for _, fi := range files {
+		name := fi.Name()
+		if _, perr := strconv.ParseInt(strings.TrimSuffix(name, ".snappy"), 10, 64); perr != nil {
+			continue
+		}
+		f, err := os.Open(filepath.Join(dir, name))
+		if err != nil {
+			return nil, err
+		}
+		var r io.Reader = bufio.NewReaderSize(f, 1<<16)
+		if strings.HasSuffix(name, ".snappy") {
+			r = snappy.NewReader(f)
+		}
+		h := crc32.New(crc32.MakeTable(crc32.Castagnoli))
+		head := make([]byte, 8)
+		for {
+			if _, err := io.ReadFull(r, head); err != nil {
+				break
+			}
+			b := make([]byte, int64(binary.BigEndian.Uint32(head)))
+			if _, err := io.ReadFull(r, b); err != nil {
+				break
+			}
+			h.Reset()
+			h.Write(b)
+			if h.Sum32() != binary.BigEndian.Uint32(head[4:]) {
+				break
+			}
+			out = append(out, b)
+		}
+		f.Close()
+	}
+	return out, nil
+}
+
 // verifCoalesced records the size of each coalesced iteration group: counter
 // "coalesced_groups" counts groups, "coalesced_iterations" sums their sizes and
 // "coalesced_max" holds the largest group seen.
